@@ -10,6 +10,7 @@ package main
 import (
 	"encoding/json"
 	"fmt"
+	"io"
 	nh "net/http"
 	"net/http/httptest"
 	"sort"
@@ -225,6 +226,80 @@ func runReal(seq []int) obs {
 	return o
 }
 
+// runWire serves the same handler over a real TCP connection (httptest.Server + net/http client):
+// what the client actually receives. Content-Length / framing mistakes only show here.
+func runWire(seq []int) obs {
+	res, s := runner.RunKeep(script(seq), runner.Opts{Setup: func(vm data.VM) { ohttp.Load(vm) }})
+	defer s.Close()
+	if res.Kind != "ok" {
+		return obs{Err: "define:" + res.Kind + ":" + res.Msg + res.PanicKey}
+	}
+	fv, _ := s.Var("h").(*data.FuncValue)
+	if fv == nil {
+		return obs{Err: "handler closure not found"}
+	}
+	herr := ""
+	srv := httptest.NewServer(nh.HandlerFunc(func(w nh.ResponseWriter, r *nh.Request) {
+		g := runner.Guard(func() { ohttp.Handler{Value: fv.Value, Ctx: s.Ctx}.ServeHTTP(w, r) })
+		if g.Kind != "ok" {
+			herr = g.Kind + ":" + g.Class + ":" + g.Msg + g.PanicKey
+		}
+	}))
+	defer srv.Close()
+	client := &nh.Client{CheckRedirect: func(*nh.Request, []*nh.Request) error { return nh.ErrUseLastResponse }}
+	resp, err := client.Get(srv.URL + "/p")
+	if err != nil {
+		return obs{Err: "client: " + err.Error()}
+	}
+	defer resp.Body.Close()
+	body, rerr := io.ReadAll(resp.Body)
+	o := obs{Code: resp.StatusCode, Body: string(body), Headers: map[string][]string{}, Commits: -1}
+	for _, k := range watched {
+		if v := resp.Header.Values(k); len(v) > 0 {
+			o.Headers[k] = append([]string{}, v...)
+		}
+	}
+	if rerr != nil {
+		o.Err = "client read: " + rerr.Error()
+	} else if herr != "" {
+		o.Err = herr
+	}
+	return o
+}
+
+// compareWire: like compare, without the commit count (not observable by a client) and with
+// net/http's own content sniffing tolerated when the handler set no Content-Type.
+func compareWire(exp, got obs) string {
+	// HTTP itself forbids a body for 1xx/204/304: net/http refuses such writes (the script sees a
+	// catchable error) and the client gets no body. That is the protocol, not a commit-once defect.
+	if exp.Code == 204 || exp.Code == 304 || exp.Code < 200 {
+		exp.Body = ""
+		if strings.Contains(got.Err, "does not allow body") {
+			got.Err = ""
+		}
+		delete(exp.Headers, "Content-Type")
+		delete(got.Headers, "Content-Type")
+	}
+	if got.Err != "" {
+		return "wire-handler-error"
+	}
+	if got.Code != exp.Code {
+		return "wire-status"
+	}
+	if got.Body != exp.Body {
+		return "wire-body"
+	}
+	for _, k := range watched {
+		if k == "Content-Type" && len(exp.Headers[k]) == 0 {
+			continue
+		}
+		if strings.Join(got.Headers[k], "|") != strings.Join(exp.Headers[k], "|") {
+			return "wire-header:" + k
+		}
+	}
+	return ""
+}
+
 func expect(seq []int) obs {
 	m := newModel()
 	for _, o := range seq {
@@ -287,6 +362,7 @@ type seqShard struct {
 	Prefix []int `json:"prefix"`
 	Len    int   `json:"len"` // total length
 	NSym   int   `json:"nsym"`
+	Wire   bool  `json:"wire,omitempty"` // also serve over a real connection
 }
 
 type rec struct {
@@ -318,6 +394,30 @@ func seqWorker(w *pool.W, arg json.RawMessage) {
 			exp := expect(seq)
 			got := runReal(seq)
 			outcomes[fmt.Sprintf("%d/%d/%s/%v", got.Code, got.Commits, got.Body, len(got.Headers))] = true
+			if sh.Wire {
+				n++
+				gw := runWire(seq)
+				if cl := compareWire(exp, gw); cl != "" {
+					red := append([]int{}, seq...)
+					for changed := true; changed; {
+						changed = false
+						for i := 0; i < len(red); i++ {
+							cand := append(append([]int{}, red[:i]...), red[i+1:]...)
+							if compareWire(expect(cand), runWire(cand)) == cl {
+								red, changed = cand, true
+								break
+							}
+						}
+					}
+					key := cl + ":" + strings.Join(names(red), ",")
+					if !failed[key] {
+						failed[key] = true
+						eb, _ := json.Marshal(expect(red))
+						gb, _ := json.Marshal(runWire(red))
+						w.Emit(rec{Kind: "fail", Key: key, Clause: cl, Size: len(red), Case: map[string]any{"kind": "wire", "ops": names(red), "script": script(red)}, Detail: fmt.Sprintf("over a real connection: expected %s\nclient received %s", eb, gb)})
+					}
+				}
+			}
 			if cl := compare(exp, got); cl != "" {
 				red := reduce(seq, cl)
 				key := cl + ":" + strings.Join(names(red), ",")
@@ -419,7 +519,11 @@ func mwWorker(w *pool.W, arg json.RawMessage) {
 	var n int64
 	outcomes := map[string]bool{}
 	for _, st := range sh.Stacks {
-		for short := -1; short < len(st); short++ {
+		maxShort := len(st)
+		if len(st) > 6 {
+			maxShort = 0 // large stacks: order only
+		}
+		for short := -1; short < maxShort; short++ {
 			if !w.Item(fmt.Sprint(st, short)) {
 				continue
 			}
@@ -461,14 +565,18 @@ func main() {
 	}
 	c.SetBudget(4*time.Minute, 40*time.Minute)
 	var shards []pool.Shard
+	wireLen := 3
+	if !c.Quick() {
+		wireLen = 4
+	}
 	for l := 0; l <= maxLen; l++ {
 		if l < 3 {
-			shards = append(shards, pool.Shard{Kind: "seq", Arg: seqShard{Prefix: []int{}, Len: l, NSym: nsym}})
+			shards = append(shards, pool.Shard{Kind: "seq", Arg: seqShard{Prefix: []int{}, Len: l, NSym: nsym, Wire: l <= wireLen}})
 			continue
 		}
 		for a := 0; a < nsym; a++ {
 			for b := 0; b < nsym; b++ {
-				shards = append(shards, pool.Shard{Kind: "seq", Arg: seqShard{Prefix: []int{a, b}, Len: l, NSym: nsym}})
+				shards = append(shards, pool.Shard{Kind: "seq", Arg: seqShard{Prefix: []int{a, b}, Len: l, NSym: nsym, Wire: l <= wireLen}})
 			}
 		}
 	}
@@ -489,6 +597,29 @@ func main() {
 	for n := 0; n <= maxStack; n++ {
 		gen(nil, n)
 	}
+	// Large stacks: sorting algorithms switch strategy with size (insertion sort below ~12 elements),
+	// so stability must also be exercised beyond it. Not exhaustible (4^13 stacks); a fixed family
+	// of tie-rich patterns for every size 13..24 is enumerated instead and reported as such.
+	nbig := 0
+	for n := 13; n <= 24; n++ {
+		for k := 2; k <= 4; k++ {
+			for m := 1; m <= 5; m++ {
+				st := make([]int, n)
+				for i := range st {
+					st[i] = prios[(i*m+i/k)%k]
+				}
+				stacks = append(stacks, st)
+				nbig++
+				rv := make([]int, n)
+				for i := range rv {
+					rv[i] = prios[(k-1)-((i*m)%k)]
+				}
+				stacks = append(stacks, rv)
+				nbig++
+			}
+		}
+	}
+	c.Set("large_patterned_middleware_stacks", nbig)
 	for i := 0; i < len(stacks); i += 32 {
 		j := i + 32
 		if j > len(stacks) {
